@@ -71,6 +71,15 @@ template<class T,int L> static void vec_ops(const In<T>& in,vf::Ctx& c){
 	self_op<T>(c,x,p+"v=v+v",[](V& d,const V& s){ d=d+s; }); self_op<T>(c,x,p+"v=v*v",[](V& d,const V& s){ d=s*d; }); self_op<T>(c,x,p+"v=-v",[](V& d,const V& s){ d=-s; });
 	{ V a=x; const T s=in.v[5]; RET_SELF(p+"+=vec",a,a+=x); RET_SELF(p+"-=vec",a,a-=x); RET_SELF(p+"*=vec",a,a*=x); RET_SELF(p+"/=vec",a,a/=x); RET_SELF(p+"+=scalar",a,a+=s); RET_SELF(p+"-=scalar",a,a-=s); RET_SELF(p+"*=scalar",a,a*=s); RET_SELF(p+"/=scalar",a,a/=s); RET_SELF(p+"=",a,a=x); RET_SELF(p+"++v",a,++a); RET_SELF(p+"--v",a,--a);
 	  if constexpr(!std::is_floating_point<T>::value){ V b=x; const T m=(T)3; RET_SELF(p+"%=vec",b,b%=x); RET_SELF(p+"&=vec",b,b&=x); RET_SELF(p+"|=vec",b,b|=x); RET_SELF(p+"^=vec",b,b^=x); RET_SELF(p+"<<=scalar",b,b<<=m); RET_SELF(p+">>=scalar",b,b>>=m); RET_SELF(p+"%=scalar",b,b%=m); RET_SELF(p+"&=scalar",b,b&=m); } }
+	// the same object passed for two parameters (the result is a separate object): must equal the call with a copy of it
+#define SAME2(NAME,CALL_XX,CALL_XC) do{ V cp=x; auto r1=(CALL_XX); auto r2=(CALL_XC); if(memcmp(&r1,&r2,sizeof r1)!=0){ bool diff=false; for(int i_=0;i_<L;i_++) if(!same(r1[i_],r2[i_])) diff=true; if(diff) c.fail(std::string(QN)+":"+p+NAME+":same-object-for-both-arguments:differs-from-the-call-with-a-copy","(same object)","(copy)"); } }while(0)
+	SAME2("equal(v,v)",glm::equal(x,x),glm::equal(x,cp)); SAME2("notEqual(v,v)",glm::notEqual(x,x),glm::notEqual(x,cp)); SAME2("lessThan(v,v)",glm::lessThan(x,x),glm::lessThan(x,cp)); SAME2("lessThanEqual(v,v)",glm::lessThanEqual(x,x),glm::lessThanEqual(x,cp)); SAME2("greaterThanEqual(v,v)",glm::greaterThanEqual(x,x),glm::greaterThanEqual(x,cp));
+	SAME2("min(v,v)",glm::min(x,x),glm::min(x,cp)); SAME2("max(v,v)",glm::max(x,x),glm::max(x,cp)); SAME2("v+v",x+x,x+cp); SAME2("v-v",x-x,x-cp); SAME2("v*v",x*x,x*cp); SAME2("v/v",x/x,x/cp);
+	{ V cp=x; bool e1=(x==x), e2=(x==cp), n1=(x!=x), n2=(x!=cp); if(e1!=e2||n1!=n2) c.fail(std::string(QN)+":"+p+"operator==/!=(v,v):same-object-for-both-arguments:differs-from-the-call-with-a-copy",e1,e2); }
+	if constexpr(std::is_floating_point<T>::value){ V cp=x; T d1=glm::dot(x,x), d2=glm::dot(x,cp); if(!same(d1,d2)) c.fail(std::string(QN)+":"+p+"dot(v,v):same-object-for-both-arguments:differs-from-the-call-with-a-copy",d1,d2); T l1=glm::distance(x,x), l2=glm::distance(x,cp); if(!same(l1,l2)) c.fail(std::string(QN)+":"+p+"distance(v,v):same-object-for-both-arguments:differs-from-the-call-with-a-copy",l1,l2);
+		SAME2("mix(v,v,0.25)",glm::mix(x,x,(T)0.25),glm::mix(x,cp,(T)0.25)); SAME2("step(v,v)",glm::step(x,x),glm::step(x,cp)); SAME2("clamp(v,v,v)",glm::clamp(x,x,x),glm::clamp(x,cp,cp)); SAME2("reflect(v,v)",glm::reflect(x,x),glm::reflect(x,cp)); }
+	// converting assignment from another element type into a destination that already holds data
+	{ typedef typename std::conditional<std::is_same<T,float>::value,double,float>::type U; glm::vec<L,U,glm::defaultp> src; for(int i=0;i<L;i++) src[i]=(U)(i32)(in.v[8+i]); V d=x; d=src; for(int i=0;i<L;i++) if(!same(d[i],(T)src[i])){ c.fail(std::string(QN)+":"+p+"converting-assignment(other element type):component-not-assigned",d[i],(T)src[i]); break; } }
 	mixed_all<T>(c,x,p,in.sel);
 	auto el=[e](V& v)->T&{ return v[e]; };
 	elem_op<T>(c,x,p+"+=scalar",[](V& d,const T& s){ d+=s; },el); elem_op<T>(c,x,p+"-=scalar",[](V& d,const T& s){ d-=s; },el); elem_op<T>(c,x,p+"*=scalar",[](V& d,const T& s){ d*=s; },el); elem_op<T>(c,x,p+"/=scalar",[](V& d,const T& s){ d/=s; },el);
@@ -101,6 +110,10 @@ template<class T,int C,int R> static void mat_ops(const In<T>& in,vf::Ctx& c){
 	const std::string p="mat"+std::to_string(C)+"x"+std::to_string(R)+":"; const int ei=(int)(in.sel%C), ej=(int)((in.sel/4)%R);
 	self_op<T>(c,x,p+"+=",[](M& d,const M& s){ d+=s; }); self_op<T>(c,x,p+"-=",[](M& d,const M& s){ d-=s; }); self_op<T>(c,x,p+"=",[](M& d,const M& s){ d=s; });
 	self_op<T>(c,x,p+"m=m+m",[](M& d,const M& s){ d=d+s; }); self_op<T>(c,x,p+"m=-m",[](M& d,const M& s){ d=-s; });
+	{ typedef typename std::conditional<std::is_same<T,float>::value,double,typename std::conditional<std::is_same<T,double>::value,float,float>::type>::type U; glm::mat<C,R,U,glm::defaultp> src; for(int i=0;i<C;i++) for(int j=0;j<R;j++) src[i][j]=(U)(i32)(in.v[(i*R+j+5)&15]);
+	  M d=x; d=src; bool bad=false; for(int i=0;i<C;i++) for(int j=0;j<R;j++) if(!same(d[i][j],(T)src[i][j])) bad=true; if(bad) c.fail(std::string(QN)+":"+p+"converting-assignment(other element type):element-not-assigned",shw<M,T>(d),"every element = static_cast of the source element");
+	  M e1(src); bad=false; for(int i=0;i<C;i++) for(int j=0;j<R;j++) if(!same(e1[i][j],(T)src[i][j])) bad=true; if(bad) c.fail(std::string(QN)+":"+p+"converting-constructor(other element type):element-wrong",shw<M,T>(e1),"every element = static_cast of the source element"); }
+	{ M cp=x; bool e1=(x==x), e2=(x==cp), n1=(x!=x), n2=(x!=cp); if(e1!=e2||n1!=n2) c.fail(std::string(QN)+":"+p+"operator==/!=(m,m):same-object-for-both-arguments:differs-from-the-call-with-a-copy",e1,e2); M s1=x+x, s2=x+cp; int w=0; if(!same_obj<M,T>(s1,s2,&w)) c.fail(std::string(QN)+":"+p+"m+m:same-object-for-both-arguments:differs-from-the-call-with-a-copy",shw<M,T>(s1),shw<M,T>(s2)); }
 	mixed_all<T>(c,x,p,in.sel);
 	auto el=[ei,ej](M& m)->T&{ return m[ei][ej]; };
 	elem_op<T>(c,x,p+"+=scalar",[](M& d,const T& s){ d+=s; },el); elem_op<T>(c,x,p+"-=scalar",[](M& d,const T& s){ d-=s; },el); elem_op<T>(c,x,p+"*=scalar",[](M& d,const T& s){ d*=s; },el); elem_op<T>(c,x,p+"/=scalar",[](M& d,const T& s){ d/=s; },el);
@@ -147,6 +160,9 @@ VF_OP(alias_quat_f64, In<double>, "ddddddddddddddddu"){ qua_ops<double>(in,c); }
 template<int L> static void carry_ops(const In<u32>& in,vf::Ctx& c){
 	typedef glm::vec<L,u32,glm::defaultp> V; V x,y; for(int i=0;i<L;i++){ x[i]=in.v[i]; y[i]=in.v[4+i]; } const std::string p=std::string(QN)+":vec"+std::to_string(L)+":";
 	auto rep=[&](const std::string& n,const V& gr,const V& go,const V& wr,const V& wo){ int w=0; if(!same_obj<V,u32>(gr,wr,&w)||!same_obj<V,u32>(go,wo,&w)) c.fail(p+n+":out-parameter-is-an-operand:differs-from-the-same-call-with-a-separate-out-parameter","result "+shw<V,u32>(gr)+" out "+shw<V,u32>(go),"result "+shw<V,u32>(wr)+" out "+shw<V,u32>(wo)); };
+	// out-parameters that hold stale data before the call (carry chains reuse the variable): the call must overwrite them completely
+	{ V z(0u), po(0xDEADBEEFu), r1,r2; r1=glm::uaddCarry(x,y,z); r2=glm::uaddCarry(x,y,po); rep("uaddCarry(out-parameter holding stale data)",r2,po,r1,z); V z2(0u), po2(0xDEADBEEFu); r1=glm::usubBorrow(x,y,z2); r2=glm::usubBorrow(x,y,po2); rep("usubBorrow(out-parameter holding stale data)",r2,po2,r1,z2);
+	  V h1(0u),l1(0u),h2(0xDEADBEEFu),l2(0xFEEDFACEu); glm::umulExtended(x,y,h1,l1); glm::umulExtended(x,y,h2,l2); rep("umulExtended(out-parameters holding stale data)",h2,l2,h1,l1); }
 	{ V o; V r=glm::uaddCarry(x,y,o); { V a=x; V g=glm::uaddCarry(a,y,a); rep("uaddCarry(x,y,x)",g,a,r,o); } { V b=y; V g=glm::uaddCarry(x,b,b); rep("uaddCarry(x,y,y)",g,b,r,o); } }
 	{ V o; V r=glm::usubBorrow(x,y,o); { V a=x; V g=glm::usubBorrow(a,y,a); rep("usubBorrow(x,y,x)",g,a,r,o); } { V b=y; V g=glm::usubBorrow(x,b,b); rep("usubBorrow(x,y,y)",g,b,r,o); } }
 	{ V hi,lo; glm::umulExtended(x,y,hi,lo); { V a=x,b=y; glm::umulExtended(a,b,a,b); rep("umulExtended(x,y,x,y)",a,b,hi,lo); } { V a=x,b=y; glm::umulExtended(a,b,b,a); rep("umulExtended(x,y,y,x)",b,a,hi,lo); } }
@@ -168,7 +184,7 @@ VF_OP(alias_carry_u32, In<u32>, "uuuuuuuuuuuuuuuuu"){
 
 // ------------------------------------------------------------------------------------------------ workload
 template<class T> static T pick(vf::Rng& r,bool small_int){
-	if constexpr(std::is_floating_point<T>::value){ int m=(int)(r.next()%4); T v= m==0? (T)r.range(-9,9): m==1? (T)r.uniform(-4,4): m==2? (T)r.logmag(-6,6): (T)(r.range(-64,64)*0.125); if(v==0) v=(T)1.5; return v; }
+	if constexpr(std::is_floating_point<T>::value){ int m=(int)(r.next()%4); T v= m==0? (T)r.range(-9,9): m==1? (T)r.uniform(-4,4): m==2? (T)r.logmag(-6,6): (T)(r.range(-64,64)*0.125); if(v==0) v=(T)1.5; if(r.below(40)==0) v= r.coin()? std::numeric_limits<T>::quiet_NaN(): std::numeric_limits<T>::infinity(); return v; }
 	else { if(small_int){ i32 v=(i32)r.range(1,40); if(std::is_signed<T>::value && r.coin()) v=-v; return (T)v; } return (T)r.next(); }
 }
 static void workload(){
